@@ -113,7 +113,13 @@ def run_shard(spec):
             nbd.hygiene()
             os.environ["PATH"] = paths[variant]
             try:
-                return nbd.merge_notebooks(to_node(b), to_node(l), to_node(rr), merge_args(cfg))
+                if cfg.get("merge") == "union":
+                    # documented strategy that the command line does not offer: library callers set it on the options
+                    args_ = merge_args(dict(cfg, merge="inline"))
+                    args_.merge_strategy = "union"
+                else:
+                    args_ = merge_args(cfg)
+                return nbd.merge_notebooks(to_node(b), to_node(l), to_node(rr), args_)
             finally:
                 os.environ["PATH"] = paths["full"]
         return f
@@ -137,7 +143,7 @@ def run_shard(spec):
 
     i, n = spec["i"], spec["n"]
     base_cfgs = [{"merge": m, "input": None, "output": None, "ignore_transients": True} for m in
-                 ("inline", "mergetool", "use-local", "use-remote", "use-base")]
+                 ("inline", "mergetool", "use-local", "use-remote", "use-base", "union")]
     allc = all_merge_configs()
     # ---- notebooks: laws
     for k in range(spec["pairs"]):
